@@ -283,17 +283,37 @@ def run_one(m, out, base, budget, shards, verif=None, stage2=None):
     env = dict(os.environ, VERIF_SCRATCH=d, VERIF_DIR=verif, VERIF_TIER="quick",
                VERIF_SEED="1", VERIF_REPO_COPY=tree, PYTHONPATH=tree + ":" + verif,
                PYTHONHASHSEED="0", PYTHONDONTWRITEBYTECODE="1")
+    def run_tests():
+        try:
+            r = subprocess.run([PY, "-m", "pytest", "-q", "-x", "-p", "no:cacheprovider", "--timeout=120",
+                                "--deselect", "psutil/tests/test_system.py::TestMiscAPIs::test_users"] + TESTS,
+                               cwd=tree, env=dict(os.environ, PYTHONPATH=tree, PYTHONDONTWRITEBYTECODE="1"),
+                               capture_output=True, text=True, timeout=600, start_new_session=True)
+            last = r.stdout.strip().split("\n")[-1] if r.stdout.strip() else ""
+            failed = [ln for ln in r.stdout.split("\n") if ln.startswith("FAILED") or ln.startswith("ERROR")][:2]
+            return dict(rc=r.returncode, last=last[:200], failed=[f[:200] for f in failed])
+        except subprocess.TimeoutExpired:
+            return dict(rc=124, last="timeout", failed=[])
+
     plan = [(pid, max(4, QUICK[pid] // 40), shards) for pid in m["props"]]
+    plan.append(("TESTS", 0, 0))
     if stage2:
         plan += [(pid, stage2[0], stage2[1]) for pid in m["props"]]
     for pid, bud, shr in plan:
+        if pid == "TESTS":
+            # reduced-budget checks did not object: only a change the
+            # repository's tests accept is worth the full quick checks
+            res["tests"] = run_tests()
+            if res["tests"]["rc"] != 0:
+                break
+            continue
         t0 = time.time()
         try:
             cmd = [PY, "-m", module_of(pid), "--no-evidence", "--shards", str(shr)]
             if bud:
                 cmd += ["--budget", str(bud)]
             r = subprocess.run(cmd, cwd=verif, env=env,
-                               capture_output=True, text=True, timeout=900)
+                               capture_output=True, text=True, timeout=600)
             rc = r.returncode
             tail = [ln for ln in r.stdout.split("\n") if ln.startswith("violation")][:1]
             if rc == 2:
@@ -305,17 +325,6 @@ def run_one(m, out, base, budget, shards, verif=None, stage2=None):
         if rc == 1:
             res["killed_by"] = pid
             break
-    if res["killed_by"] is None:
-        try:
-            r = subprocess.run([PY, "-m", "pytest", "-q", "-x", "-p", "no:cacheprovider",
-                                "--deselect", "psutil/tests/test_system.py::TestMiscAPIs::test_users"] + TESTS,
-                               cwd=tree, env=dict(os.environ, PYTHONPATH=tree, PYTHONDONTWRITEBYTECODE="1"),
-                               capture_output=True, text=True, timeout=900)
-            last = r.stdout.strip().split("\n")[-1] if r.stdout.strip() else ""
-            failed = [ln for ln in r.stdout.split("\n") if ln.startswith("FAILED") or ln.startswith("ERROR")][:2]
-            res["tests"] = dict(rc=r.returncode, last=last[:200], failed=[f[:200] for f in failed])
-        except subprocess.TimeoutExpired:
-            res["tests"] = dict(rc=124, last="timeout", failed=[])
     shutil.rmtree(d, ignore_errors=True)
     return res
 
@@ -353,8 +362,15 @@ def run(out, jobs, budget, shards, only, limit):
         todo = todo[:limit]
     print("to run:", len(todo), "already done:", len(done), flush=True)
     verif = freeze_verif(out)
+    from concurrent.futures import as_completed
     with open(resf, "a") as fh, ThreadPoolExecutor(jobs) as ex:
-        for i, res in enumerate(ex.map(lambda m: run_one(m, out, base, budget, shards, verif, (0, 4)), todo)):
+        futs = [ex.submit(run_one, m, out, base, budget, shards, verif, (0, 4)) for m in todo]
+        for i, fu in enumerate(as_completed(futs)):
+            try:
+                res = fu.result()
+            except Exception as e:  # noqa: BLE001
+                print("worker error", repr(e)[:200], flush=True)
+                continue
             fh.write(json.dumps(res) + "\n")
             fh.flush()
             if i % 25 == 0:
